@@ -115,12 +115,28 @@ def one_case(ctx, k):
     os.makedirs(d, exist_ok=True)
     try:
         demux = rng.choice(["normal", "normal", "combinatorial"])
-        sc = F.observe(ctx, rng, d, dict(demux=demux, trace=False, paired_p=0.5, filter_scale=0.45, shared_names_p=0.2, odd_names_p=0.3, unknown_name_p=0.12, revcomp_p=0.1, kinds=["a", "a", "g", "b", "a$", "g^", "linked"]))
+        sc = F.observe(ctx, rng, d, dict(demux=demux, trace=False, paired_p=0.5, filter_scale=0.45, shared_names_p=0.2, odd_names_p=0.3, unknown_name_p=0.12, revcomp_p=0.1, template_styles_p=0.3, kinds=["a", "a", "g", "b", "a$", "g^", "linked"]))
         if sc is None:
             return
         sc.case["k"] = k
         ctx.count("runs")
         ctx.count("mode:" + demux + (":paired" if sc.paired else ""))
+        ctx.count("template_style:" + getattr(sc, "template_style", "file"))
+        if sc.run.rc != 0 and getattr(sc, "template_style", "file") != "file":
+            # where in the path the placeholder sits decides nothing: the same command with the placeholder in the file name
+            style = sc.template_style
+            sc.template_style = "file"
+            d2 = os.path.join(d, "again")
+            os.makedirs(d2, exist_ok=True)
+            argv2 = F.main_argv(sc, sc.report, sc.cores, extra=sc.side)
+            argv2 = [("../" + a) if a in sc.inputs else a for a in argv2]
+            again = climon.run(d2, argv2, tag="again", trace=False, timeout=120)
+            sc.template_style = style
+            if again.rc == 0:
+                ctx.case(("template", str(sc.argv)))
+                ctx.violation("template-placement", f"exit {sc.run.rc} ({sc.run.err.strip().splitlines()[-1][:160] if sc.run.err.strip() else ''}) with the placeholder "
+                              f"in a directory component or at the start of the path; the same command with it inside the file name succeeds; argv={sc.argv}", sc.case)
+                return
         ctx.count(f"cores:{sc.cores}")
         evaluate(ctx, sc, d)
         ctx.sample(dict(argv=sc.argv, files=sorted(f for pair in sc.layout.values() for f in pair if f)[:8],
